@@ -345,18 +345,47 @@ def check_end_deferral_dedup(prog, r):
         aggs = fv.aggregates(re.compile(r"rustybgpd::gr::RestartingOutput"), "EndDeferral")
         if not aggs:
             continue
-        is_set = lambda t: bool(re.search(r"HashSet|BTreeSet", (t["f"].get("ga") or "") + (t["f"].get("name") or ""))) or (t["f"].get("name") or "").endswith("::dedup")
-        tainted, root, refs = taint_flow(prog, fv, lambda p: False, call_is_source=is_set)
+        SET_TY = re.compile(r"(&(mut )?)?(std::collections::(hash::set::|hash_set::)?HashSet|std::collections::BTreeSet|std::collections::btree_set::BTreeSet|std::collections::hash_set::IntoIter|std::collections::btree_set::IntoIter)<[^<>]*Family")
+
+        def from_set(l, depth=10, seen=None):
+            """Backwards along the value's own derivation (copies, and the receiver / iterator argument of the calls that produced
+            it): does it come out of a set of families (or pass a dedup)?"""
+            seen = seen or set()
+            if l in seen or depth <= 0:
+                return False
+            seen.add(l)
+            if l < len(fv.f["locals"]) and SET_TY.match(fv.f["locals"][l]):
+                return True
+            for bi_, si_, st_ in fv.defs().get(l, []):
+                if si_ == "t":
+                    if (st_["f"].get("name") or "").endswith("::dedup"):
+                        return True
+                    a0 = st_["args"][0] if st_.get("args") else None
+                    q0 = (a0.get("c") or a0.get("m")) if a0 else None
+                    if q0 is not None and from_set(q0["l"], depth - 1, seen):
+                        return True
+                else:
+                    rv_ = st_["rv"]
+                    q0 = (rv_.get("o") or {}).get("c") or (rv_.get("o") or {}).get("m") or (rv_.get("p") if rv_["r"] in ("ref",) else None)
+                    if q0 is not None and from_set(q0["l"], depth - 1, seen):
+                        return True
+            # sort(); dedup() in place on this local
+            for b_, t_ in fv.calls(re.compile(r".*::dedup$")):
+                q_ = (t_["args"][0].get("c") or t_["args"][0].get("m")) if t_.get("args") else None
+                if q_ is not None:
+                    for bi_, si_, st_ in fv.defs().get(q_["l"], []):
+                        if si_ != "t" and st_["rv"]["r"] == "ref" and st_["rv"]["p"]["l"] == l:
+                            return True
+            return False
         for bi, si, s_ in aggs:
             n += 1
             op = s_["rv"]["fields"][0]
             q = op.get("c") or op.get("m")
-            # an empty list (nothing remains) needs no set
             e = Renderer(fv, depth=8, through_names=True).operand(op, 8)
             if e[0] == "call" and re.search(r"Vec::<T>::new$|vec::Vec::new$", e[1]):
                 r.ok("process: EndDeferral(empty)")
                 continue
-            if q is not None and (root(q) in tainted or refs.get(q["l"]) in tainted):
+            if q is not None and from_set(q["l"]):
                 r.ok("process: the EndDeferral family list is built from a set (each family once)")
             else:
                 r.fail(prog.name(k), "end-deferral-duplicates", "the family list of EndDeferral is collected straight from the per-helper pending sets: a family still owed by N helpers is listed N "
